@@ -56,8 +56,36 @@ pub fn flood(seed: u64, idx: u64) -> Scenario {
     sc
 }
 
+/// thousands of rendezvous rounds on one long-lived pool: per-thread job counts reach five digits
+/// while every job still has to meet its partners
+pub fn rounds(seed: u64, idx: u64) -> Scenario {
+    let mut rng = rng_for(seed, "C07", "rounds", idx);
+    let mut sc = Scenario::base("C07", "rounds", idx);
+    sc.engine = Engine::Pool;
+    sc.sched = pick_sched(&mut rng);
+    let size = rng.range(2, 3);
+    let n = *rng.pick(&[300u32, 1100, 4200, 10_050, 10_050, 16_500]);
+    let mut tasks = vec![];
+    for r in 0..n {
+        for _ in 0..size {
+            tasks.push(TaskKind::Round(r));
+        }
+    }
+    sc.workers = size;
+    sc.pool = Some(PoolSc { size, submitters: 1, tasks });
+    sc
+}
+
 pub fn plan(tier: Tier, seed: u64) -> Vec<Campaign> {
     vec![Campaign {
+        name: "rounds",
+        budget: match tier {
+            Tier::Quick => Budget::Count(16),
+            Tier::Thorough => Budget::Time(1),
+        },
+        exhaustive: false,
+        gen: Box::new(move |i| rounds(seed, i)),
+    }, Campaign {
         name: "flood",
         budget: match tier {
             Tier::Quick => Budget::Count(48),
